@@ -66,7 +66,7 @@ def _strategy(tier, var):
         return {"cfg": cfg, "K": K, "k": k,
                 "vorticity": draw(gen.vector_field_spec(3, kinds=["bumps", "noise", "mixed", "poly"], max_mag_exp=2)),
                 "velocity": draw(gen.vector_field_spec(3, kinds=["bumps", "noise", "mixed", "poly", "constant"], max_mag_exp=1)),
-                "free_stream": draw(st.lists(gen.floats(-1.0, 1.0, 32), min_size=dim, max_size=dim)),
+                "free_stream": draw(st.lists(st.one_of(gen.floats(-1.0, 1.0, 32), gen.floats(-1.0, 1.0, 32), st.just(0.0)), min_size=dim, max_size=dim)),
                 "dt_frac": draw(gen.floats(0.1, 0.8, 32)),
                 "coeffs": [draw(gen.floats(-2e3, -1.0, 32)), draw(gen.floats(-20.0, 0.0, 32))],
                 "radius": draw(gen.floats(0.15, 0.22, 32)), "body_v": draw(st.lists(gen.floats(-0.5, 0.5, 32), min_size=3, max_size=3)),
